@@ -24,7 +24,7 @@ import (
 func OneShiftBounded(pkgs ...string) func(p *load.Program, run *report.Run) {
 	return func(p *load.Program, run *report.Run) {
 		const rule = "one-shift-within-word"
-		run.Rule(rule, "in packages "+strings.Join(pkgs, ", ")+" (tests excluded): every shift `1 << n` of a constant one of a 64-bit (or platform) integer type by a non-constant n is dominated by the true edge of a test n < K or n <= K-1 with K at most the word size, on n itself or on the value n is converted from; with built-in examples")
+		run.Rule(rule, "in packages "+strings.Join(pkgs, ", ")+" (tests excluded): every shift `1 << n` of a constant one of a 64-bit (or platform) integer type by a non-constant n is dominated by the true edge of a test n < K or n <= K-1 with K at most the word size, on n itself or on the value n is converted from, or n is reduced by `% K` / `& (K-1)`, or counts down from below the word size, or the code lies behind `size() <= 64` for a size query; with built-in examples")
 		n := 0
 		for _, name := range pkgs {
 			pkg, err := p.Pkg(name)
@@ -146,6 +146,17 @@ func oneShifts(fn *ssa.Function) []oneShift {
 					}
 				}
 			}
+			// reduced into the word: n % K, n & K
+			for v := range amounts {
+				if r, ok := v.(*ssa.BinOp); ok {
+					if c, ok := r.Y.(*ssa.Const); ok && c.Value != nil && c.Value.Kind() == constant.Int {
+						kv, _ := constant.Int64Val(c.Value)
+						if r.Op == token.REM && kv > 0 && kv <= 64 || r.Op == token.AND && kv >= 0 && kv < 64 {
+							bounded = true
+						}
+					}
+				}
+			}
 			for _, g := range fn.Blocks {
 				iff, ok := g.Instrs[len(g.Instrs)-1].(*ssa.If)
 				if !ok {
@@ -154,6 +165,18 @@ func oneShifts(fn *ssa.Function) []oneShift {
 				cmp, ok := iff.Cond.(*ssa.BinOp)
 				if !ok {
 					continue
+				}
+				// the whole the amount is a part of fits a word: `total() <= 64` (a size query of the package)
+				if call, ok := cmp.X.(*ssa.Call); ok && (cmp.Op == token.LEQ || cmp.Op == token.LSS) && call.Call.StaticCallee() != nil {
+					if c, ok := cmp.Y.(*ssa.Const); ok && c.Value != nil && c.Value.Kind() == constant.Int {
+						kv, _ := constant.Int64Val(c.Value)
+						if cmp.Op == token.LSS {
+							kv--
+						}
+						if kv <= 64 && len(g.Succs[0].Preds) == 1 && (g.Succs[0] == b || g.Succs[0].Dominates(b)) {
+							bounded = true
+						}
+					}
 				}
 				// n < K, n <= K, K > n, K >= n, and their negations on the other edge
 				var lim *ssa.Const
